@@ -21,6 +21,7 @@ import (
 	"github.com/protolambda/ztyp/tree"
 
 	"verif/sim/core"
+	"verif/sim/refspec"
 	"verif/sim/sszmodel"
 )
 
@@ -757,6 +758,24 @@ func run(cfg *Config, opt core.Options, res *core.Result) *sim {
 	case "C07", "C13":
 		s.model = true // reference model for committees / genesis only
 	}
+	if s.steps {
+		w.modelRoot = func(pre *stateBox, env *common.BeaconBlockEnvelope) (common.Root, error) {
+			m, err := s.modelOf(pre.st)
+			if err != nil {
+				return common.Root{}, err
+			}
+			signed, err := beacon.EnvelopeToSignedBeaconBlock(env)
+			if err != nil {
+				return common.Root{}, err
+			}
+			msg := reflect.ValueOf(signed).Elem().FieldByName("Message").Addr().Interface()
+			if err := refspec.ProcessBlock(w.spec, m, msg); err != nil {
+				return common.Root{}, err
+			}
+			r, err := sszmodel.StateRoot(w.spec, m)
+			return common.Root(r), err
+		}
+	}
 	for i := 0; i < cfg.Nodes; i++ {
 		n := &simNode{id: i, states: map[common.Root]*stateBox{}, ticker: i%2 == 1, restarts: i == 2 || (cfg.Nodes < 3 && i == 0)}
 		g, _ := w.genesis.post.copy()
@@ -819,6 +838,13 @@ func run(cfg *Config, opt core.Options, res *core.Result) *sim {
 			}
 			if err != nil {
 				s.viol("C01", "honest-block-refused", err.Error())
+				if rh, ok := err.(*refusedHonest); ok && s.opt.Property == "C03" && s.steps {
+					// the refusal is C01's matter; C03 still wants to know what zrnt does with corrupted
+					// variants of this block
+					s.stop = false
+					s.byzantine(parent, rh.orphan)
+					s.stop = true
+				}
 				break
 			}
 			if blk == nil {
